@@ -177,8 +177,12 @@ func vpH_c09_cmd_plugins() {
 func vpH_c09_cmd_matrix() {
 	x := &CommandStep{Command: "c"}
 	v1, v2 := vpStr(1, "x-z"), vpStr(1, "x-z")
-	kind := vpInt(0, 9)
+	kind := vpInt(0, 11)
 	switch kind {
+	case 10: // a bare list of values next to other keys of the matrix
+		x.Matrix = &Matrix{Setup: MatrixSetup{"": {v1, v2}}, RemainingFields: map[string]any{"concurrency": 2}}
+	case 11: // ... and with an adjustment as well
+		x.Matrix = &Matrix{Setup: MatrixSetup{"": {v1}}, Adjustments: MatrixAdjustments{{With: MatrixAdjustmentWith{"": v2}}}, RemainingFields: map[string]any{"zz": "y"}}
 	case 1:
 		x.Matrix = &Matrix{} // `matrix: {}`
 	case 2:
